@@ -136,7 +136,11 @@ func genParCase(t *rapid.T) parCase {
 			kinds := []string{"w", "w", "w", "w", "r", "n", "s", "a", "c"}
 			n := rapid.IntRange(0, 24).Draw(t, "len")
 			for j := 0; j < n; j++ {
-				it.Ops = append(it.Ops, Op{K: rapid.SampledFrom(kinds).Draw(t, "k"), N: rapid.IntRange(-1, 8).Draw(t, "n")})
+				op := Op{K: rapid.SampledFrom(kinds).Draw(t, "k"), N: rapid.IntRange(-1, 8).Draw(t, "n")}
+				if op.K == "n" && rapid.IntRange(0, 2).Draw(t, "window") == 0 { // destination = window of a larger array
+					op.F, op.B = rapid.IntRange(0, 2).Draw(t, "front"), rapid.IntRange(0, 9).Draw(t, "back")
+				}
+				it.Ops = append(it.Ops, op)
 			}
 			w = append(w, it)
 		}
